@@ -3,6 +3,7 @@ import Driver.Ops.Balance
 import Driver.Ops.Rematch
 import Driver.Ops.Audit
 import Driver.Ops.Equity
+import Driver.Ops.Price
 /-! Line-protocol driver of the model: one JSON case per input line, one JSON answer per line.
     To add an op: write `Driver/Ops/<Name>.lean`, import it here, add one line to `opTable`
     (or to `outputTable` for a new output kind of op `run`). -/
@@ -22,7 +23,8 @@ def opTable : List (String × (Json → R Json)) := [
   ("peel", Ops.opPeel),
   ("selects", Ops.opSelects),
   ("audit", Ops.opAudit),
-  ("hash", Ops.opHash)
+  ("hash", Ops.opHash),
+  ("price", Ops.opPrice)
 ]
 
 def dispatch (j : Json) : R Json := do
